@@ -1,6 +1,8 @@
 package tls
 
 import (
+	"crypto/ecdh"
+
 	"github.com/refraction-networking/utls/internal/hpke"
 )
 
@@ -16,14 +18,49 @@ func zzStubSeal(s *hpke.Sender, aad, pt []byte) ([]byte, error) {
 	return append([]byte{}, out...), nil
 }
 
+// SetupSender: opaque HPKE context; the info string and recipient key it is
+// given are recorded (they must be those of the selected config, exactly).
+var zzHPKEInfo, zzHPKEPub []byte
+var zzHPKESuite [3]uint16
+
+func zzStubSetupSender(kemID, kdfID, aeadID uint16, pub *ecdh.PublicKey, info []byte) ([]byte, *hpke.Sender, error) {
+	zzHPKEInfo = append([]byte{}, info...)
+	zzHPKEPub = append([]byte{}, pub.Bytes()...)
+	zzHPKESuite = [3]uint16{kemID, kdfID, aeadID}
+	return verifBytes("hpkeenc", 32), &hpke.Sender{}, nil
+}
+
+var zzECHSelectedConfig []byte
+var zzECHListShapes bool // explore multi-entry config lists (first harness only)
+
 const zzECHPublic = "public.example"
 const zzECHSecret = "hidden.example" // no byte of it has the GREASE form 0x?a
 
-func zzECHConfigList(id uint8, aead uint16, maxName uint8) []byte {
+func zzECHConfig(id uint8, kem uint16, pkFirst byte, aead uint16, maxName uint8) []byte {
 	pk := make([]byte, 32)
-	pk[0] = 9
-	body := zzCat([]byte{id}, zzU16(0x0020), zzVec16(pk), zzVec16(zzCat(zzU16(1), zzU16(aead))), []byte{maxName}, zzVec8([]byte(zzECHPublic)), zzVec16(nil))
-	return zzVec16(zzCat(zzU16(0xfe0d), zzVec16(body)))
+	pk[0] = pkFirst
+	body := zzCat([]byte{id}, zzU16(kem), zzVec16(pk), zzVec16(zzCat(zzU16(1), zzU16(aead))), []byte{maxName}, zzVec8([]byte(zzECHPublic)), zzVec16(nil))
+	return zzCat(zzU16(0xfe0d), zzVec16(body))
+}
+
+// zzECHConfigList: one usable config (X25519 KEM, key byte 9), alone or as the
+// first / second entry of a two-entry list whose other entry is a config the
+// client must skip (unknown KEM) or a second usable config (then the first wins).
+func zzECHConfigList(id uint8, aead uint16, maxName uint8) []byte {
+	good := zzECHConfig(id, 0x0020, 9, aead, maxName)
+	zzECHSelectedConfig = good
+	if !zzECHListShapes {
+		return zzVec16(good)
+	}
+	switch verifChoice("config-list-shape", 4) {
+	case 1: // usable first, another usable config after it
+		return zzVec16(zzCat(good, zzECHConfig(id+1, 0x0020, 7, aead, maxName)))
+	case 2: // a config with an unsupported KEM first
+		return zzVec16(zzCat(zzECHConfig(id+1, 0x0010, 7, aead, maxName), good))
+	case 3: // a config of an unknown version first (skipped)
+		return zzVec16(zzCat(zzCat(zzU16(0xfe0a), zzVec16([]byte{1, 2, 3})), good))
+	}
+	return zzVec16(good)
 }
 
 // zzECHIDs: HelloGolang and every predefined parrot whose spec carries an
@@ -219,11 +256,14 @@ func zzECHSetup() (p zzParrot, cfg *Config, cfgID uint8, aead uint16) {
 //verif:harness C15 ech_outer_hides_name_inner_decodes unwind=4000 instrs=900000000 paths=40000 wall=1200
 //verif:stub (*math/rand.Rand).Shuffle zzStubShuffle
 //verif:stub (*github.com/refraction-networking/utls/internal/hpke.Sender).Seal zzStubSeal
+//verif:stub github.com/refraction-networking/utls/internal/hpke.SetupSender zzStubSetupSender
 //verif:expect end
 //verif:assume HPKE is opaque: SetupSender yields a 32-byte encapsulated key, Seal returns arbitrary bytes of plaintext length + 16; the server's reply is EOF (only the first flight is examined)
-//verif:doc Handshake with an ECH config list (config id symbolic; AEAD 1/2/3; max name length 0/14/64) for HelloGolang and every ECH-capable parrot, all randomness symbolic: the single record written is an outer ClientHello that parses strictly, whose SNI is the config's public name and whose bytes outside the per-connection random fields nowhere contain Config.ServerName; the ECH extension names the config id and suite, carries the encapsulated key and exactly the sealed payload; the AAD handed to Seal is the outer hello with the payload zeroed; and the real server-side decodeInnerClientHello applied to the plaintext handed to Seal yields an inner hello naming ServerName whose key shares, session id, groups, signature algorithms and ALPN equal the outer values.
+//verif:doc Handshake with an ECH config list (one usable config - config id symbolic; AEAD 1/2/3; max name length 0/14/64 - alone, followed by a second usable config, or preceded by a config with an unsupported KEM or of an unknown version) for HelloGolang and every ECH-capable parrot, all randomness symbolic: the single record written is an outer ClientHello that parses strictly, whose SNI is the config's public name and whose bytes outside the per-connection random fields nowhere contain Config.ServerName; the ECH extension names the config id and suite, carries the encapsulated key and exactly the sealed payload; the AAD handed to Seal is the outer hello with the payload zeroed; the HPKE context is set up with the info string "tls ech\0" || exactly the selected config's bytes, its public key and its suite; and the real server-side decodeInnerClientHello applied to the plaintext handed to Seal yields an inner hello naming ServerName whose key shares, session id, groups, signature algorithms and ALPN equal the outer values.
 func zzC15ECHOuterHidesNameInnerDecodes() {
+	zzECHListShapes = true
 	p, cfg, cfgID, aead := zzECHSetup()
+	zzECHListShapes = false
 	zzSealCalls = nil
 	conn := &zzRecConn{}
 	uc := UClient(conn, cfg, p.id)
@@ -241,12 +281,17 @@ func zzC15ECHOuterHidesNameInnerDecodes() {
 		return
 	}
 	zzCheckECHOuter(raw, zzSealCalls[len(zzSealCalls)-1], cfgID, aead, true, p.name)
+	// the HPKE context is set up for the selected config and nothing else
+	verifAssertClass(zzBytesEq(zzHPKEInfo, zzCat([]byte("tls ech\x00"), zzECHSelectedConfig)), "hpke-info-is-the-selected-config", p.name)
+	verifAssertClass(len(zzHPKEPub) == 32 && zzHPKEPub[0] == 9, "hpke-recipient-key-is-the-selected-configs", p.name)
+	verifAssertClass(zzHPKESuite == [3]uint16{0x0020, 1, aead}, "hpke-suite-is-the-selected-configs", p.name)
 	verifReach("end")
 }
 
 //verif:harness C15 ech_second_hello_after_hrr unwind=4000 instrs=900000000 paths=40000 wall=1200
 //verif:stub (*math/rand.Rand).Shuffle zzStubShuffle
 //verif:stub (*github.com/refraction-networking/utls/internal/hpke.Sender).Seal zzStubSeal
+//verif:stub github.com/refraction-networking/utls/internal/hpke.SetupSender zzStubSetupSender
 //verif:stub (crypto.Hash).New zzStubHashNew
 //verif:stub (*utls.prng).Read zzStubPrngRead
 //verif:expect accepted not-accepted
@@ -362,6 +407,7 @@ func (zzCountingReader) Read(b []byte) (int, error) {
 //verif:harness C15 ech_acceptance_decides_reported_name unwind=4000 instrs=900000000 paths=40000 wall=1200
 //verif:stub (*math/rand.Rand).Shuffle zzStubShuffle
 //verif:stub (*github.com/refraction-networking/utls/internal/hpke.Sender).Seal zzStubSeal
+//verif:stub github.com/refraction-networking/utls/internal/hpke.SetupSender zzStubSetupSender
 //verif:stub (crypto.Hash).New zzStubHashNew
 //verif:expect accepted rejected
 //verif:assume HPKE opaque; transcript hash uninterpreted; HKDF-Extract / Expand-Label arbitrary (equal arguments, equal output): the ServerHello's acceptance signal (last 8 random bytes, symbolic) may or may not match, both outcomes explored; the ServerHello carries no key share, so the handshake stops right after the acceptance decision
